@@ -22,8 +22,13 @@ UNSET = "<unset>"
 
 LISTS = {"tags": ("int", (0, 5)), "stags": ("int", None)}
 TRAIT_DEFS = ["Int", "Str", "Float", "Range", "Enum", "ListInt", "Tuple", "Either", "Map",
-              "PropInt", "Instance", "DictStrInt", "CInt", "Bool"]
-RT_VALUES = [0, 1, 5, -3, 2.5, "a", "5", None, True, (1, "a"), [1, 2], ["x"], {"k": 1}, 11, "yes"]
+              "PropInt", "Instance", "DictStrInt", "CInt", "Bool",
+              "Complex", "CFloat", "CComplex", "RangeF", "RangeFE", "RangeLow", "Callable", "Any",
+              "SetInt", "Union", "EitherNone", "PrefixList", "PrefixMap", "Constant", "Event",
+              "Bytes", "String", "Type", "TupleAny", "ValidatedTuple", "WeakRef", "ListComplex",
+              "TupleComplex", "BaseInt"]
+RT_VALUES = [0, 1, 5, -3, 2.5, "a", "5", None, True, (1, "a"), [1, 2], ["x"], {"k": 1}, 11, "yes",
+             1j, b"x", 0.5, (1, 2), (2, 1), "al", len, {1, 2}, [1j], (1j, 2)]
 
 
 def make_trait_def(name):
@@ -375,6 +380,15 @@ class Prop:
 
     # the liveness battery -------------------------------------------------------------
     def battery(self, pool, models, step):
+        # first of all (before anything is changed): every cached property of the
+        # restored objects agrees with the restored state
+        for x, m in zip(pool, models):
+            got, e = sut(getattr, x, "vtotal")
+            want = x.value + sum(c.value for c in (x.__dict__.get("children") or []))
+            self.env.oracle_evals += 1
+            if e is not None or got != want:
+                raise Violation("C14.property", "copy of R%d: cached property vtotal reads %r, its "
+                                "own state gives %r (%r)" % (m["uid"], got, want, e), step)
         for x, m in zip(pool, models):
             self.battery_one(x, m, step, others=(pool, models))
 
